@@ -146,6 +146,9 @@ func (h *Handler) send(ctx context.Context, conn *net.UDPConn, queue chan data, 
 			return
 		case response := <-queue:
 			index, body, e, addr := response.Index, response.Body, response.Error, response.Addr
+			if e == nil && len(body) > maxBodyLength {
+				e = ErrResponseEntityTooLarge
+			}
 			if e != nil {
 				index |= 0x8000
 				if e == core.ErrRequestEntityTooLarge {
